@@ -28,11 +28,16 @@ def conditions(tier):
     # property flag words
     if quick:
         for lo in range(0, 4096, 1024):
-            conds.append(ch.Cond('h_c12', 'property_flags', [('flags', 'int'), ('on_interface', 'bool')],
-                                 pre=['%d <= flags < %d' % (lo, lo + 1024)],
+            conds.append(ch.Cond('h_c12', 'property_flags', [('flags', 'int'), ('on_interface', 'bool'), ('high', 'int')],
+                                 pre=['%d <= flags < %d' % (lo, lo + 1024), 'high in (0, 2)'],
                                  fixed=dict(ptype=0, has_default=False), timeout=T,
                                  name='property_flags[%d..%d]' % (lo, lo + 1023),
-                                 bounds='every flag word in the range, on a class and on an interface'))
+                                 bounds='every flag word in the range plus one of the high parts {0, -2^31} '
+                                        '(negative words: gdump.c prints %d), on a class and on an interface'))
+        conds.append(ch.Cond('h_c12', 'property_flags', [('flags', 'int'), ('high', 'int'), ('on_interface', 'bool')],
+                             pre=['0 <= flags <= 63', '0 <= high < %d' % len(H.HIGH)],
+                             fixed=dict(ptype=0, has_default=False), timeout=T, name='property_flags[high parts]',
+                             bounds='flag words 0..63 combined with every high part'))
         conds.append(ch.Cond('h_c12', 'property_flags',
                              [('flags', 'int'), ('ptype', 'int'), ('has_default', 'bool'), ('on_interface', 'bool')],
                              pre=['0 <= flags <= 15', '0 <= ptype < %d' % NG], timeout=T,
@@ -41,8 +46,8 @@ def conditions(tier):
     else:
         for pt in range(NG):
             for oi in (False, True):
-                conds.append(ch.Cond('h_c12', 'property_flags', [('flags', 'int'), ('has_default', 'bool')],
-                                     pre=['0 <= flags <= 4095'], fixed=dict(ptype=pt, on_interface=oi), timeout=T,
+                conds.append(ch.Cond('h_c12', 'property_flags', [('flags', 'int'), ('has_default', 'bool'), ('high', 'int')],
+                                     pre=['0 <= flags <= 4095', '0 <= high < %d' % len(H.HIGH)], fixed=dict(ptype=pt, on_interface=oi), timeout=T,
                                      name='property_flags[%s,%s]' % (H.GTYPES[pt], 'interface' if oi else 'class'),
                                      bounds='every flag word 0..4095 x default value, property GType %s' % H.GTYPES[pt]))
     # signals
@@ -73,13 +78,14 @@ def conditions(tier):
                                 'implements / prerequisites; interface structure named *Iface, *Interface or absent'))
     conds.append(ch.Cond('h_c12', 'pairing',
                          [('boxed_kind', 'int'), ('with_class_struct', 'bool'), ('vf_first', 'int'), ('vf2_first', 'int'),
-                          ('quark', 'int'), ('enum_registered', 'bool')],
-                         pre=['0 <= boxed_kind <= 3', '0 <= vf_first <= 3', '0 <= vf2_first <= 3', '0 <= quark <= 3'],
+                          ('quark', 'int'), ('enum_registered', 'bool'), ('ename', 'int')],
+                         pre=['0 <= boxed_kind <= 3', '0 <= vf_first <= 3', '0 <= vf2_first <= 3', '0 <= quark <= 3',
+                              '0 <= ename <= 2'],
                          timeout=T, name='pairing',
                          bounds='boxed type vs struct/union/nothing of the same name; class structure present or not; two '
                                 'function-pointer slots whose first parameter is the instance / another record / int / '
                                 'none; error-quark function matching, not matching, not returning GQuark, absent; '
-                                'error enum registered or not'))
+                                'error enum (FooSomeError, FooDBusError, FooIOChannelError) registered or not'))
     return conds
 
 
@@ -91,7 +97,7 @@ def run(report, tier, seed, only=None):
         'the dump subprocess (girepository/gdump.c + the scanned library) is replaced by a fake element tree in the '
         'format gdump.c writes; GDumpParser._execute_binary_get_tree is the only stubbed method',
         'C lexer replaced by plain declaration records; GLib/GObject/Gio are namespace fragments',
-        'flag words are bounded by 4095 (12 bits; the four meaningful bits are 0-3)',
+        'flag words: every low 12-bit pattern combined with six high parts incl. negative words',
         'MessageLogger replaced by a recorder; cache disabled')
     conds = conditions(tier)
     if only:
